@@ -368,7 +368,7 @@ def find_journal(so):
 def summarize(b):
     if not b.alive or b.so is None:
         return Summary(b.nid, False, None, False, None, None, None, (), None, None, (), frozenset(), frozenset(),
-                       frozenset(), None, True, False, ())
+                       frozenset(), None, not b.nid.startswith('o'), False, tuple(sorted(b.extra.items())))
     so = b.so
     j = find_journal(so)
     log = tuple((e[1], e[2], bytes(e[0]) if not isinstance(e[0], bytes) else e[0]) for e in (j[i] for i in range(len(j))))
@@ -417,7 +417,7 @@ class Config(object):
     def __init__(self, n=3, observers=0, batch=True, batch_bytes=2 ** 16, chunk=2 ** 16, journal=None,
                  dyn=False, obj='list', period=0.01, tmin=0.04, tmax=0.05, fallback=1e9, wait_leader=True,
                  qsize=1000, min_entries=1000000, exact_time=False, fuse=False, members=None, conf_extra=None,
-                 consumers=None, use_fork=False, h_all=False, methods=()):
+                 consumers=None, use_fork=False, h_all=False, methods=(), free_restart=True, spare=0):
         self.n = n
         self.observers = observers
         self.batch = batch
@@ -439,6 +439,8 @@ class Config(object):
         self.conf_extra = conf_extra or {}
         self.consumers = consumers
         self.use_fork = use_fork
+        self.spare = spare              # absent node ids that a membership change may add
+        self.free_restart = free_restart   # restarts do not consume budget (kills do)
         self.methods = tuple(methods)   # extra replicated methods offered as submissions (besides put)
         self.h_all = h_all              # heartbeat-sized time steps on non-leaders too
 
@@ -530,11 +532,58 @@ class Stepper(object):
             return r
         self.node_steps += 1
         b = self.get(k)
-        out, obs, exc = run_event(b, ev, self.cfg)
+        out, obs, exc, killed = run_event(b, ev, self.cfg)
         nk = self.put(b)
-        r = (nk, tuple(out), tuple(obs), exc)
+        r = (nk, tuple(out), tuple(obs), exc, b.vfs.nwrites)
         self.memo[mk] = r
         return r
+
+    def kill(self, k, ev, at):
+        """Kill the node before OS-visible mutation number `at` of node event `ev` (ev None: kill
+        between steps). Returns (dead key, outbox so far, obs so far)."""
+        mk = (k, ev, 'kill', at)
+        r = self.memo.get(mk)
+        if r is not None:
+            return r
+        self.node_steps += 1
+        b = self.get(k)
+        out, obs = [], []
+        if ev is not None:
+            out, obs, exc, killed = run_event(b, ev, self.cfg, kill_at=at)
+            if not killed:
+                raise core.HarnessError('kill point %r of %r not reached' % (at, ev))
+        pre = summarize(b)
+        dead = Bundle(b.nid)
+        dead.alive = False
+        dead.now = b.now
+        dead.kills = b.kills + 1
+        dead.vfs = b.vfs.clone_files()
+        # what a restart would recover (trial restart on a copy of the files)
+        trial = build_node(self.cfg, b.nid, self.cfg.members or self.cfg.voter_ids(), vfs_obj=b.vfs.clone_files(), now=b.now)
+        run_event(trial, ('tick', 0.0), self.cfg)     # the first tick loads the dump, before any message is handled
+        ts = summarize(trial)
+        dead.extra = {'durable': (ts.first, tuple((e[1], e[2]) for e in ts.log)),
+                      'prekill': (pre.first, tuple((e[0], e[1]) for e in pre.log), pre.commit, pre.applied, pre.term)}
+        nk = self.put(dead)
+        r = (nk, tuple(out), tuple(obs))
+        self.memo[mk] = r
+        return r
+
+    def restart(self, k):
+        mk = (k, 'restart')
+        r = self.memo.get(mk)
+        if r is not None:
+            return r
+        self.node_steps += 1
+        d = self.get(k)
+        # 'fresh': constructed, first tick not yet run. Messages are only read by poll() at the end of a tick
+        # and the first tick loads the dump, so until then only ticks (and kills) are enabled for this node and
+        # the oracle counts what the files hold ('durable'), as for a dead node.
+        b = build_node(self.cfg, d.nid, self.cfg.members or self.cfg.voter_ids(), vfs_obj=d.vfs.clone_files(), now=d.now,
+                       kills=d.kills, extra={'fresh': 1, 'durable': d.extra.get('durable')})
+        nk = self.put(b)
+        self.memo[mk] = nk
+        return nk
 
 
 def run_event(b, ev, cfg, kill_at=None):
@@ -544,13 +593,20 @@ def run_event(b, ev, cfg, kill_at=None):
     seams.CLOCK_DRIFT[0] = 0.0
     seams.RAND[0] = 0.0
     vfs.activate(b.vfs)
-    b.vfs.begin_step(kill_at=kill_at)
+    at_death = []
+
+    def on_kill():
+        at_death.append((len(b.tr.outbox), len(OBS)))
+    b.vfs.begin_step(kill_at=kill_at, on_kill=on_kill)
     b.tr.outbox = []
     b.tr.sends = 0
     kind = ev[0]
     exc = None
+    killed = False
     try:
         if kind == 'tick':
+            b.extra.pop('fresh', None)
+            b.extra.pop('durable', None)
             seams.CLOCK[0] += ev[1]
             if len(ev) > 2 and ev[2]:
                 seams.CLOCK_DRIFT[0] = ev[2]
@@ -594,7 +650,7 @@ def run_event(b, ev, cfg, kill_at=None):
         else:
             raise core.HarnessError('unknown node event %r' % (ev,))
     except vfs.Killed:
-        raise
+        killed = True
     except core.HarnessError:
         raise
     except NotImplementedError:
@@ -613,7 +669,15 @@ def run_event(b, ev, cfg, kill_at=None):
     b.now = seams.CLOCK[0]
     out = b.tr.outbox
     b.tr.outbox = []
-    return list(out), list(OBS), exc
+    obs = list(OBS)
+    if at_death:
+        # whatever the library did after the kill (bare 'except:' clauses swallow it) never happened
+        killed = True
+        exc = None
+        out = out[:at_death[0][0]]
+        obs = obs[:at_death[0][1]]
+    b.vfs.on_kill = None
+    return list(out), obs, exc, killed
 
 
 # --------------------------------------------------------------------------------------
@@ -700,6 +764,11 @@ class ClusterModel(object):
         for nid in ids:
             b = build_node(self.cfg, nid, members)
             nodes.append((nid, self.st.put(b)))
+        for i in range(self.cfg.spare):
+            d = Bundle(addr(self.cfg.n + i + 1))
+            d.alive = False
+            d.extra = {'absent': 1}
+            nodes.append((d.nid, self.st.put(d)))
         ghost = tuple(m.init_ghost(self) for m in self.monitors)
         budget = tuple(sorted((k, 0) for k in BUDGET_KINDS))
         return World(tuple(nodes), (), frozenset(), budget, ghost, 0)
@@ -748,28 +817,90 @@ class ClusterModel(object):
                     evs.append(('SM', n, meth))
             if bud['K'] > 0:
                 evs.append(('K', n))
+            if bud['J'] > 0 and self.cfg.journal:
+                evs.append(('J', n))
         for (a, b), q in w.links:
             evs.append(('D', a, b))
-        if bud['X'] > 0:
-            for s in sums:
-                if s.alive:
-                    for p in sorted(s.connected):
+        alive = set(s.nid for s in sums if s.alive)
+        for s in sums:
+            if s.alive:
+                for p in sorted(s.connected):
+                    if bud['X'] > 0:
                         evs.append(('X', s.nid, p))
+                    elif pair(s.nid, p) not in w.phys and (p not in alive or s.nid not in self.summary(w, p).connected) \
+                            and not w.queue(p, s.nid):
+                        # the peer process died / restarted: noticing that costs no budget
+                        evs.append(('X', s.nid, p, 'free'))
         if bud['R'] > 0:
             ids = [s.nid for s in sums if s.alive]
             for i, a in enumerate(ids):
                 for b2 in ids[i + 1:]:
                     if self.can_reconnect(w, a, b2):
                         evs.append(('R', a, b2))
+        if bud['P'] > 0:
+            for s in sums:
+                if s.alive and self.cfg.journal and s.voter:
+                    evs.append(('P', s.nid))
+                    for nev, label in self.node_events_of(w, s):
+                        nw = self.st.step(w.nk(s.nid), nev)[4]
+                        for kk in range(nw):
+                            evs.append(('PK', s.nid, label, kk))
+        for s in sums:
+            if not s.alive and (bud['U'] > 0 or self.cfg.free_restart) and s.extra and s.extra[0][0] == 'durable':
+                evs.append(('U', s.nid))
         for m in self.monitors:
             evs.extend(m.extra_events(self, w, bud, sums))
         return evs
+
+    def node_events_of(self, w, s):
+        """(node-local event, world label) pairs a kill can interrupt: ticks and deliveries."""
+        cfg = self.cfg
+        out = [(('tick', 0.0), ('Z', s.nid))]
+        if s.leader_flag:
+            out.append((('tick', cfg.period + EPS), ('H', s.nid)))
+        out.append((('tick', 1.0 + EPS), ('J', s.nid)))
+        for (a, b), q in w.links:
+            if b == s.nid and q and not q[0].startswith(b'HELLO') and a in s.connected:
+                out.append((('msg', a, q[0]), ('D', a, b)))
+        return out
+
+    def kill(self, w, nid, label=None, at=None):
+        nev = None
+        links = w.links
+        if label is not None:
+            if label[0] == 'D':
+                q = w.queue(label[1], label[2])
+                nev = ('msg', label[1], q[0])
+                links = set_queue(links, label[1], label[2], q[1:])
+            else:
+                nev = ('tick', tick_dt(self.cfg, label))
+        k = w.nk(nid)
+        nk, out, obs = self.st.kill(k, nev, at)
+        phys = frozenset(p for p in w.phys if nid not in p)
+        d = dict(links)
+        for dst, msg in out:
+            if pair(nid, dst) in w.phys:
+                d[(nid, dst)] = d.get((nid, dst), ()) + (msg,)
+        for (a, b2) in list(d):
+            if b2 == nid:
+                del d[(a, b2)]
+        links = tuple(sorted(d.items()))
+        nw = World(w.with_node(nid, nk), links, phys, w.budget, w.ghost, w.nsub)
+        pre, post = self.st.summ[k], self.st.summ[nk]
+        ghost = []
+        ev = ('PK', nid, label, at) if label is not None else ('P', nid)
+        for m, g in zip(self.monitors, w.ghost):
+            ghost.append(m.on_step(self, w, nw, nid, ev, pre, post, out, obs, None, g))
+        nw.ghost = tuple(ghost)
+        return nw
 
     def can_reconnect(self, w, a, b):
         if a.startswith('o') and b.startswith('o'):
             return False
         sa, sb = self.summary(w, a), self.summary(w, b)
         if not (sa.alive and sb.alive):
+            return False
+        if len(sa.extra) > 1 and ('fresh', 1) in sa.extra or len(sb.extra) > 1 and ('fresh', 1) in sb.extra:
             return False
         if b in sa.connected or a in sb.connected or pair(a, b) in w.phys:
             return False
@@ -792,7 +923,7 @@ class ClusterModel(object):
     def node_step(self, w, nid, nev, budget=None, links=None, phys=None, nsub=None, label=None):
         """Run a node-local event, route its outbox, run monitors. Returns the new world."""
         k = w.nk(nid)
-        nk, out, obs, exc = self.st.step(k, nev)
+        nk, out, obs, exc, _nw = self.st.step(k, nev)
         links = w.links if links is None else links
         phys = w.phys if phys is None else phys
         post = self.st.summ[nk]
@@ -893,6 +1024,37 @@ class ClusterModel(object):
         if kind == 'K':
             bud = self.spend(w, 'K') if len(ev) < 3 else w.budget
             return bud and self.node_step(w, ev[1], ('compact',), budget=bud, label=ev)
+        if kind == 'J':   # one-second step (journal meta flush timer)
+            b = self.spend(w, 'J') if len(ev) < 3 else w.budget
+            return b and self.node_step(w, ev[1], ('tick', 1.0 + EPS), budget=b, label=ev)
+        if kind == 'P' or kind == 'PK':
+            bud = self.spend(w, 'P') if ev[-1] != 'free' else w.budget
+            if bud is None or not self.summary(w, ev[1]).alive:
+                return None
+            w2 = World(w.nodes, w.links, w.phys, bud, w.ghost, w.nsub)
+            if kind == 'P':
+                return self.kill(w2, ev[1])
+            label = tuple(ev[2])
+            if label[0] == 'D' and not w.queue(label[1], label[2]):
+                return None
+            return self.kill(w2, ev[1], label, ev[3])
+        if kind == 'U':
+            if self.summary(w, ev[1]).alive:
+                return None
+            bud = w.budget
+            if not self.cfg.free_restart and ev[-1] != 'free':
+                bud = self.spend(w, 'U')
+                if bud is None:
+                    return None
+            k = w.nk(ev[1])
+            nk = self.st.restart(k)
+            nw = World(w.with_node(ev[1], nk), w.links, w.phys, bud, w.ghost, w.nsub)
+            pre, post = self.st.summ[k], self.st.summ[nk]
+            ghost = []
+            for m, g in zip(self.monitors, w.ghost):
+                ghost.append(m.on_step(self, w, nw, ev[1], ev, pre, post, (), (), None, g))
+            nw.ghost = tuple(ghost)
+            return nw
         for m in self.monitors:
             r = m.apply_extra(self, w, ev)
             if r is not NotImplemented:
@@ -993,6 +1155,8 @@ def tick_dt(cfg, ev):
         return cfg.fallback + EPS
     if k == 'T':
         return ev[2]
+    if k == 'J':
+        return 1.0 + EPS
     return None
 
 
